@@ -247,12 +247,13 @@ Record dat := mkDat {
   d_started : bool;         (* topic: Start() has been called *)
   d_pc : nat;               (* topic: GetTopic progress 0 created, 1 creating channels, 2 done *)
   d_todo : list N;          (* topic: lookupd channels still to create *)
-  d_q : list N              (* queued message ids *)
+  d_q : list N;             (* queued message ids *)
+  d_want : list N           (* ghost: what the lookupd query returned (used only by theorems) *)
 }.
-#[export] Instance eta_dat : Settable _ := settable! mkDat <d_started; d_pc; d_todo; d_q>.
+#[export] Instance eta_dat : Settable _ := settable! mkDat <d_started; d_pc; d_todo; d_q; d_want>.
 
 Definition dflt : obj := mkObj None 0 0 true false.
-Definition ddflt : dat := mkDat false 2 [] [].
+Definition ddflt : dat := mkDat false 2 [] [] [].
 Definition getO (l : list obj) (i : nat) : obj := nth i l dflt.
 Definition getD (l : list dat) (i : nat) : dat := nth i l ddflt.
 
@@ -366,7 +367,7 @@ Definition set_dat (i : nat) (f : dat -> dat) (x : dstate) : dstate :=
 Definition get_channel (p : nat) (c : N) (x : dstate) : dstate :=
   match find_chan (x_objs x) p c with
   | Some _ => x
-  | None => add_obj (new_chan p (o_t (getO (x_objs x) p)) c) (mkDat false 2 [] []) x
+  | None => add_obj (new_chan p (o_t (getO (x_objs x) p)) c) (mkDat false 2 [] [] []) x
   end.
 
 Definition mem (i : nat) (l : list nat) : bool := existsb (Nat.eqb i) l.
@@ -386,11 +387,11 @@ Definition topic_advance (c : cfg) (ls : list link) (t : N) (x : dstate) : dstat
       match d_pc d with
       | O =>
           let chans := filter (fun ch => negb (g_skip_eph c && eph ch)) (query ls t) in
-          set_dat i (fun d => d <| d_pc := 1 |> <| d_todo := chans |>
+          set_dat i (fun d => d <| d_pc := 1 |> <| d_todo := chans |> <| d_want := chans |>
                                <| d_started := (if g_precreate_first c then d_started d else true) |>) x
       | S O =>
           match d_todo d with
-          | ch :: r => get_channel i ch (set_dat i (fun d => d <| d_todo := r |>) x)
+          | ch :: r => set_dat i (fun d => d <| d_todo := r |>) (get_channel i ch x)
           | [] => set_dat i (fun d => d <| d_pc := 2 |> <| d_started := true |>) x
           end
       | _ => x
@@ -409,7 +410,7 @@ Definition data_step (c : cfg) (ls : list link) (o : op) (x : dstate) : dstate :
   let l := x_objs x in
   match o with
   | TopicCreate t =>
-      match find_topic l t with Some _ => x | None => add_obj (new_topic t) (mkDat false 0 [] []) x end
+      match find_topic l t with Some _ => x | None => add_obj (new_topic t) (mkDat false 0 [] [] []) x end
   | TopicAdvance t => topic_advance c ls t x
   | ChanCreate t ch =>
       match find_topic l t with Some i => get_channel i ch x | None => x end
